@@ -204,15 +204,25 @@ func replay(a *hx.Args, res *hx.Result) {
 	if len(rows) == 0 {
 		hx.Fatal("no table rows in %s", a.In)
 	}
-	rp := &replayer{res: res, seed: a.Seed}
 	seenEnd := false
-	for _, raw := range rows {
-		var r row
-		if err := json.Unmarshal(raw, &r); err != nil {
+	parsed := make([]row, len(rows))
+	for i, raw := range rows {
+		if err := json.Unmarshal(raw, &parsed[i]); err != nil {
 			hx.Fatal("bad table row: %v", err)
 		}
-		rp.raw = raw
-		res.Count("rows:" + r.T)
+		res.Count("rows:" + parsed[i].T)
+		switch parsed[i].T {
+		case "leg", "jac", "inv", "sqrt", "crt", "pow", "fm", "pr", "rpir", "spsize", "gexp":
+		case "end":
+			seenEnd = true
+		default:
+			hx.Fatal("unknown table %q", parsed[i].T)
+		}
+	}
+	// rows are independent: all cores; only the FastMod rows run in sequence, on one FastMod value that is re-Set per modulus
+	hx.Parallel(len(rows), func(i int) {
+		r := &parsed[i]
+		rp := &replayer{res: res, seed: a.Seed, raw: rows[i]}
 		switch r.T {
 		case "leg":
 			rp.symbol("LegendreSymbol", r.P, r.vec())
@@ -221,25 +231,26 @@ func replay(a *hx.Args, res *hx.Result) {
 		case "inv":
 			rp.inverse(r.N, r.vec())
 		case "sqrt":
-			rp.sqrt(&r)
+			rp.sqrt(r)
 		case "crt":
 			rp.crt(r.Pa, r.Pb, r.mat())
 		case "pow":
 			rp.pow(r.M, r.X, r.Y0, r.vec())
-		case "fm":
-			rp.fastmod(&r)
 		case "pr":
-			rp.safeTest(&r)
+			rp.safeTest(r)
 		case "rpir":
-			rp.primeInRange(&r)
+			rp.primeInRange(r)
 		case "spsize":
-			rp.safeGen(&r)
+			rp.safeGen(r)
 		case "gexp":
-			rp.group(&r)
-		case "end":
-			seenEnd = true
-		default:
-			hx.Fatal("unknown table %q", r.T)
+			rp.group(r)
+		}
+	})
+	rp := &replayer{res: res, seed: a.Seed}
+	for i := range parsed {
+		if parsed[i].T == "fm" {
+			rp.raw = rows[i]
+			rp.fastmod(&parsed[i])
 		}
 	}
 	if !seenEnd {
@@ -274,7 +285,7 @@ func (rp *replayer) symbol(fn string, n int64, v []int64) {
 		if !k.ok() {
 			rp.bad(fn, "modified an operand", args)
 		}
-		if n == 17 && a == -14 {
+		if n == 17 && a == -14 && fn == "LegendreSymbol" {
 			rp.res.Sample(hx.M{"call": "LegendreSymbol(-14, 17)", "real": got, "tlc_table": want})
 		}
 	}
@@ -352,7 +363,7 @@ func (rp *replayer) sqrt(r *row) {
 			if rp.call("PrimeSqrt", args, func() { root, ok = verifx.PrimeSqrt(A, P) }) {
 				check("PrimeSqrt", a, root, ok, args)
 				if n == 73 && (a == 2 || a == 5) {
-					rp.res.Sample(hx.M{"call": fmt.Sprintf("PrimeSqrt(%d, 73)", a), "real_ok": ok, "real_root": num(root), "tlc_root_exists": r.Qr[a]})
+					rp.res.Sample(hx.M{"call": fmt.Sprintf("PrimeSqrt(%d, 73)", a), "real_ok": ok, "real_root": fmt.Sprint(root), "tlc_root_exists": r.Qr[a]})
 				}
 				if !k.ok() {
 					rp.bad("PrimeSqrt", "modified an operand", args)
@@ -712,12 +723,30 @@ func record(a *hx.Args, res *hx.Result) {
 
 	// a panic inside a helper is an outcome: the record carries panic=true and the specification rejects it
 	try := func(f func()) bool { p, _ := hx.Try(f); return p }
+	// batches are computed on all cores and written in their natural order
+	parallelEmit := func(n int, f func(i int) []hx.M) {
+		outs := make([][]hx.M, n)
+		hx.Parallel(n, func(i int) { outs[i] = f(i) })
+		for _, ms := range outs {
+			for _, m := range ms {
+				rc.emit(m)
+			}
+		}
+	}
+	secs := hx.M{}
+	t0, cur := time.Now(), "setup"
+	lap := func(next string) {
+		secs[cur] = fmt.Sprintf("%.1fs", time.Since(t0).Seconds())
+		t0, cur = time.Now(), next
+	}
 
+	lap("symbols")
 	// ---- LegendreSymbol on odd primes (Legendre) and on odd composites (Jacobi), a from -n to 2n
-	for n := int64(3); n < max64(b.leg, b.jac); n += 2 {
+	parallelEmit(int(max64(b.leg, b.jac)/2), func(i int) (ms []hx.M) {
+		n := int64(2*i + 3)
 		prime := isPrimeBig(n)
-		if (prime && n >= b.leg) || (!prime && n >= b.jac) {
-			continue
+		if n >= max64(b.leg, b.jac) || (prime && n >= b.leg) || (!prime && n >= b.jac) {
+			return nil
 		}
 		var r []int64
 		kept, panicked := true, false
@@ -734,14 +763,16 @@ func record(a *hx.Args, res *hx.Result) {
 		if prime {
 			fn, key = "leg", "p"
 		}
-		rc.emit(hx.M{"f": fn, key: n, "a0": -n, "r": r, "kept": kept, "panic": panicked, "al": 0})
+		ms = append(ms, hx.M{"f": fn, key: n, "a0": -n, "r": r, "kept": kept, "panic": panicked, "al": 0})
 		N := bi(n)
 		var got int
 		panicked = try(func() { got = verifx.LegendreSymbol(N, N) })
-		rc.emit(hx.M{"f": fn, key: n, "a0": n, "r": []int64{int64(got)}, "kept": N.Cmp(bi(n)) == 0, "panic": panicked, "al": 1})
+		ms = append(ms, hx.M{"f": fn, key: n, "a0": n, "r": []int64{int64(got)}, "kept": N.Cmp(bi(n)) == 0, "panic": panicked, "al": 1})
 		res.Eval(fmt.Sprintf("rec/%s/%d", fn, n))
-	}
+		return ms
+	})
 
+	lap("inverse")
 	// ---- ModInverse, all a below every modulus
 	for n := int64(2); n < b.inv; n++ {
 		var oks []bool
@@ -766,6 +797,7 @@ func record(a *hx.Args, res *hx.Result) {
 		res.Eval(fmt.Sprintf("rec/inv/%d", n))
 	}
 
+	lap("modpow")
 	// ---- ModPow with signed exponents
 	for m := int64(2); m <= b.pow; m++ {
 		for x := int64(-1); x <= m; x++ {
@@ -795,6 +827,7 @@ func record(a *hx.Args, res *hx.Result) {
 		res.Eval(fmt.Sprintf("rec/pow/%d", m))
 	}
 
+	lap("crt")
 	// ---- Crt, all residues of all coprime pairs of moduli
 	for pa := int64(2); pa <= b.crt; pa++ {
 		for pb := int64(2); pb <= b.crt; pb++ {
@@ -824,8 +857,13 @@ func record(a *hx.Args, res *hx.Result) {
 		}
 	}
 
+	lap("sqrt")
 	// ---- PrimeSqrt (odd primes) and ModSqrt (lists of coprime factors: odd primes and 4, both orders)
-	for n := int64(3); n < b.sqrt; n++ {
+	parallelEmit(int(b.sqrt), func(i int) (ms []hx.M) {
+		n := int64(i)
+		if n < 3 {
+			return nil
+		}
 		lists := factorLists(n)
 		for li, fsv := range lists {
 			vias := []string{"ModSqrt"}
@@ -861,12 +899,14 @@ func record(a *hx.Args, res *hx.Result) {
 					kept = kept && k.ok()
 					res.Eval("")
 				}
-				rc.emit(hx.M{"f": "sqrt", "via": via, "fs": fsv, "n": n, "a0": 0, "ok": oks, "r": rs, "kept": kept, "panic": panicked})
+				ms = append(ms, hx.M{"f": "sqrt", "via": via, "fs": fsv, "n": n, "a0": 0, "ok": oks, "r": rs, "kept": kept, "panic": panicked})
 				res.Eval(fmt.Sprintf("rec/sqrt/%s/%v", via, fsv))
 			}
 		}
-	}
+		return ms
+	})
 
+	lap("foursquares")
 	// ---- SumFourSquares, every n below the bound, in blocks of 256
 	nblocks := int((b.sq4 + 255) / 256)
 	blocks := make([]hx.M, nblocks)
@@ -890,6 +930,7 @@ func record(a *hx.Args, res *hx.Result) {
 		res.Eval(fmt.Sprintf("rec/sq4/%d", i*256))
 	}
 
+	lap("fastmod")
 	// ---- FastMod: every modulus below 2^b, operands negative / small / huge, result separate, aliased, dirty
 	var fm verifx.FastMod
 	for p := int64(1); p < b.fm; p++ {
@@ -924,6 +965,7 @@ func record(a *hx.Args, res *hx.Result) {
 		res.Eval(fmt.Sprintf("rec/fm/%d", p))
 	}
 
+	lap("safetest")
 	// ---- ProbablySafePrime on every number below the bound
 	for n0 := int64(0); n0 < b.spt; n0 += 256 {
 		var rs []bool
@@ -939,6 +981,7 @@ func record(a *hx.Args, res *hx.Result) {
 		res.Eval(fmt.Sprintf("rec/spt/%d", n0))
 	}
 
+	lap("primeinrange")
 	// ---- RandomPrimeInRange on every interval [2^start, 2^start + 2^len] that holds a candidate prime
 	for start := int64(2); start <= b.rpirStart; start++ {
 		for ln := int64(1); ln <= start+1 && ln <= 22; ln++ {
@@ -964,6 +1007,7 @@ func record(a *hx.Args, res *hx.Result) {
 		}
 	}
 
+	lap("safegen")
 	// ---- safeprime.Generate from 8 bits upwards (N3: sizes 4 and 5 cannot terminate)
 	for bits := int64(8); bits <= b.spBits; bits++ {
 		var ps []int64
@@ -978,6 +1022,7 @@ func record(a *hx.Args, res *hx.Result) {
 		res.Eval(fmt.Sprintf("rec/spgen/%d", bits))
 	}
 
+	lap("groupexp")
 	// ---- zkproof.Group.Exp on the groups of all small safe primes, exponents from -2q to 2q (the domain is -q < e < q)
 	below, wrongBelow := 0, 0
 	for P := int64(5); P < b.group; P += 2 {
@@ -1027,6 +1072,8 @@ func record(a *hx.Args, res *hx.Result) {
 	}
 	// outside the domain, not judged: exponents <= -Order are folded once and then used although still negative
 	res.Notes["group_exp_exponent_at_or_below_minus_order"] = fmt.Sprintf("%d calls returned without panic, %d of them with a value different from base^(e mod Order) (outside the domain -Order < e < Order; not judged)", below, wrongBelow)
+	lap("end")
+	res.Notes["section_seconds"] = secs
 	res.Notes["records"] = rc.n
 	res.Sample(hx.M{"direction": "code->spec", "records": rc.n, "note": "one record = one modulus with the real results on its whole operand range"})
 }
@@ -1089,9 +1136,9 @@ func fmOperands(p, dense int64, rng *mrand.Rand) []int64 {
 // ====================================================================== large operands (math/big, not TLC)
 
 func large(a *hx.Args, res *hx.Result) {
-	rounds := 150
+	rounds := 400
 	if a.Tier == "thorough" {
-		rounds = 1500
+		rounds = 3000
 	}
 	if a.N > 0 {
 		rounds = a.N
